@@ -245,6 +245,35 @@ def run(out: Outcome) -> None:
                     break
         out.case({"refit_without_reset": True, "window": w, "n1": len(ref1), "n2": len(ref2), "h": hash(tuple(stream)) & 0xFFFFFF})
     # references above 10 000 values: asymptotic branch, batch vs incremental
+    # a WINDOW above 10 000 values (small reference): the asymptotic branch as well, decided by max(n, w)
+    for n, w in ((40, 10001),):
+        ref = [rng.gauss(0, 1) for _ in range(n)]
+        stream = [rng.gauss(0.1, 1) for _ in range(w + 2)]
+        inc = IncrementalKSTest(window_size=w)
+        inc.fit(X=np.array(ref))
+        bat = KSTest()
+        bat.fit(X=np.array(ref))
+        rep = {"ref_size": n, "window": w, "kind": "large window", "stream_seeded": True}
+        for t, v in enumerate(stream, 1):
+            try:
+                r, _ = inc.update(value=v)
+            except Exception as e:  # noqa: BLE001
+                out.violation(f"IncrementalKSTest.update raised {type(e).__name__}: {e} at update {t} with window_size={w}", rep)
+                break
+            if t < w:
+                if r is not None:
+                    out.violation(f"IncrementalKSTest returned a result after {t} < window_size={w} values", rep)
+                    break
+                continue
+            if r is None:
+                out.violation(f"IncrementalKSTest returned nothing at update {t} >= window_size={w}", rep)
+                break
+            b, _ = bat.compare(X=np.array(stream[t - w: t]))
+            if abs(float(r.statistic) - float(b.statistic)) > 1e-12 or abs(float(r.p_value) - float(b.p_value)) > 1e-9:
+                out.violation(f"IncrementalKSTest (statistic, p)=({float(r.statistic)!r}, {float(r.p_value)!r}) differs from the batch test "
+                              f"({float(b.statistic)!r}, {float(b.p_value)!r}) with window_size={w}", rep)
+                break
+        out.case({"large_window": w, "ref": n})
     for n, w in ([(10001, 3), (10000, 4), (12000, 7)] if thorough else [(10001, 3), (10000, 4)]):
         ref = [rng.gauss(0, 1) for _ in range(n)]
         stream = [rng.gauss(0.3, 1) for _ in range(w + 3)]
